@@ -130,7 +130,7 @@ def exitOne (h : Hooks) (fl : Flavor) (m : Machine) (ev : Option String) (s : St
   | some d => delActive p (execActions h d.exit (exitEvName fl m p ev) s)
 
 /-- run a plan: exits, actions, entries, in that order; a failed transition restores the configuration -/
-def execute (h : Hooks) (fl : Flavor) (m : Machine) (ev : Ev) (pl : Plan) (s : St) : St :=
+def executeCore (h : Hooks) (fl : Flavor) (m : Machine) (ev : Ev) (pl : Plan) (s : St) : St :=
   if pl.internal then
     match pl.err with
     | some e => s.fail e
@@ -144,6 +144,14 @@ def execute (h : Hooks) (fl : Flavor) (m : Machine) (ev : Ev) (pl : Plan) (s : S
       | some e => if s4.err.isSome then s4 else s4.fail e
       | none => s4
     if s5.err.isSome then { s5 with cfg := s.cfg } else s5
+
+/-- the observation point of `on_transition` plugins and subscribers: the configuration they see -/
+def obsRecord (m : Machine) (s : St) : String := "#t:" ++ ",".intercalate (s.cfg.map m.idOf)
+
+/-- one selected transition: `executeCore`, then (only when it did not fail) the observers run -/
+def execute (h : Hooks) (fl : Flavor) (m : Machine) (ev : Ev) (pl : Plan) (s : St) : St :=
+  let r := executeCore h fl m ev pl s
+  if r.err.isSome then r else emit (obsRecord m r) r
 
 def processEvent (h : Hooks) (fl : Flavor) (m : Machine) (env : GEnv) (ev : Ev) (s : St) : St :=
   match selectTransitions m s.cfg env ev with
@@ -204,9 +212,10 @@ def syncStart (m : Machine) (env : GEnv) (s : St) : St :=
 def syncSend (m : Machine) (env : GEnv) (e : Ev) (s : St) : St := sndUnflagged m env e s
 
 -- ASYNC ----------------------------------------------------------------------------------------------
-/-- `raise` during processing counts towards the chain breaker -/
+/-- while the run loop is processing an event (`_processing`), both the `raise` built-in and a
+    `done.state.*` raised by an entry count towards the chain breaker -/
 def hooksAsync : Hooks :=
-  { snd := enqueue
+  { snd := fun e s => enqueue e { s with raiseDepth := s.raiseDepth + 1 }
     sndRaise := fun e s => enqueue e { s with raiseDepth := s.raiseDepth + 1 } }
 
 /-- one iteration of `_run_event_loop`; an error while processing is logged and the loop survives -/
@@ -234,10 +243,11 @@ def asyncFuel : Nat := 1500
 def asyncStart (m : Machine) (env : GEnv) (s : St) : St :=
   let s := { s with status := "running" }
   let (es, e) := startEntries m
-  let s := es.foldl (enterOne hooksAsync .async m (some "___xstate_statemachine_init___")) s
+  -- `start()` itself runs outside the run loop (`_processing` is false): nothing is counted
+  let s := es.foldl (enterOne hooksFlagged .async m (some "___xstate_statemachine_init___")) s
   let s := match e with | some err => s.fail err | none => s
   if s.err.isSome then { s with status := "stopped" } else
-  let s := transientLoop hooksAsync .async m env m.maxIterations s
+  let s := transientLoop hooksFlagged .async m env m.maxIterations s
   if s.err.isSome then { s with status := "stopped" } else
   asyncDrain m env asyncFuel s
 
